@@ -182,6 +182,14 @@ def impl(line: str) -> str:
         return "ok " + ("True" if node.is_valid else "False")
     if op == "script":
         return _script(from_tokens(t[1], t[3:]))
+    if op == "str":
+        return "ok " + str(from_tokens(t[1], t[2:]))
+    if op == "parse":
+        try:
+            node = M.parse(common.unhx(t[2]).decode("utf8", "replace"), t[1])
+        except Exception as e:  # noqa: BLE001
+            return "err " + common.err_class(e)
+        return "ok " + " ".join(tokens(node))
     return "bad-op"
 
 
@@ -229,10 +237,72 @@ def _o_text(w):
         back = M.parse(text, node.context)
     except Exception as e:  # noqa: BLE001
         return False, f"parse(str(node)) raised {type(e).__name__}: {e}"[:300]
-    return back == node and str(back) == text, f"{text[:200]} re-parsed as {str(back)[:200]}"
+    try:
+        same = back == node
+    except RecursionError:  # dataclass __eq__ recurses on the depth of the tree
+        same = tokens(back) == tokens(node)
+    return same and str(back) == text, f"{text[:200]} re-parsed as {str(back)[:200]}"
 
 
-ORACLES = {"size": _o_size, "readback": _o_readback, "text": _o_text}
+def mutate_text(rng, text: str) -> str:
+    """one structural edit of an expression's text; long hex runs (keys, digests) are left whole."""
+    import re
+    spans = [(m.start(), m.end()) for m in re.finditer(r"[0-9a-fA-F]{40,}", text)]
+
+    def free(i):
+        return not any(a <= i < b for a, b in spans)
+    pos = [i for i in range(len(text) + 1) if free(i) and (i == 0 or free(i - 1))]
+    i = rng.choice(pos)
+    r = rng.random()
+    alphabet = "(),:0123456789_abcdjlnstuvkhopr x"
+    if r < 0.35 and i < len(text) and free(i):
+        return text[:i] + text[i + 1:]
+    if r < 0.7:
+        return text[:i] + rng.choice(alphabet) + text[i:]
+    if r < 0.85 and i < len(text) and free(i):
+        return text[:i] + rng.choice(alphabet) + text[i + 1:]
+    j = rng.choice(pos)
+    a, b = min(i, j), max(i, j)
+    return text[:a] + text[b:] if rng.random() < 0.5 else text[:b] + text[a:b] + text[b:]
+
+
+def _o_spend(w):
+    from . import c15_spend as SP
+    return SP.oracle_spend(w)
+
+
+ORACLES = {"size": _o_size, "readback": _o_readback, "text": _o_text, "spend": _o_spend}
+
+
+def ill_shaped(rng, toks: list[str], ctx: str) -> list[str]:
+    """one edit of a token line that `_assert_shape` should refuse (or, rarely, still accept)."""
+    t = list(toks)
+    idx = [i for i, x in enumerate(t) if x in ("older", "after", "thresh", "multi", "multi_a") or x in HASHES]
+    if not idx:
+        return ["older", rng.choice(["0", str(2**31), str(2**31 - 1), "1"])]
+    i = rng.choice(idx)
+    f = t[i]
+    if f in ("older", "after"):
+        t[i + 1] = rng.choice(["0", str(2**31), str(2**31 + 5), str(2**31 - 1), "1", str(2**32)])
+    elif f == "thresh":
+        n = int(t[i + 2])
+        t[i + 1] = rng.choice(["0", str(n + 1), str(n), "1", str(n + 7)])
+    elif f in ("multi", "multi_a"):
+        n = int(t[i + 2])
+        r = rng.random()
+        if r < 0.6:
+            t[i + 1] = rng.choice(["0", str(n + 1), str(n), "1"])
+        else:
+            t[i] = "multi_a" if f == "multi" else "multi"
+    else:
+        r = rng.random()
+        if r < 0.5:
+            t[i + 1] = t[i + 1][:-2]
+        elif r < 0.8:
+            t[i + 1] = t[i + 1] + "00"
+        else:
+            t[i] = rng.choice([h for h in HASHES if h != f])
+    return t
 
 
 # ------------------------------------------------------------------ run
@@ -278,23 +348,80 @@ def run(ctx):
         for _ in range(ctx.n(60, 1500)):
             nodes.append(G.gen_shaped(rng, c, keys, digests, size=rng.choice([2, 3, 5, 8])))
             ctx.count("source", "shaped")
+    for c in CTXS:
+        # nested to the script size limit (and, for P2WSH, one step beyond it)
+        limit = M._max_script_size(c)
+        for _ in range(ctx.n(2, 12)):
+            target = rng.choice([limit, limit - 1, limit - rng.randrange(40)]) if c == P2WSH else rng.choice([3600, 6000, 9000])
+            d = G.deep_chain(rng, c, keys, digests, target)
+            nodes.append(d)
+            ctx.count("source", "deep")
+            ctx.count("deep.script_size", str(d.script_size // 500 * 500) + "+")
+        ks = [M._key_from_sec(bytes.fromhex(k)[1:] if c == TAPSCRIPT else bytes.fromhex(k), c) for k in keys]
+        big = Miniscript("thresh", c, tuple(
+            Miniscript("c:" if i == 0 else "s:", c, (Miniscript("pk_k", c, keys=(ks[i % len(ks)],)) if i == 0 else
+                                                   Miniscript("c:", c, (Miniscript("pk_k", c, keys=(ks[i % len(ks)],)),)),))
+            for i in range(rng.choice([100, 101, 102, 103, 110]))), threshold=2)
+        nodes.append(big)
+        ctx.count("source", "oversize" if big.script_size > limit else "large")
     for n in nodes:
         ctx.count("typed", "well-typed" if n.properties else "ill-typed")
         ctx.count("context", n.context)
         for f, k in G.histogram(n).items():
             ctx.count("fragment", f, k)
-    lines = {"type": [], "size": [], "valid": [], "script": []}
+    lines = {"type": [], "size": [], "valid": [], "script": [], "str": [], "parse": []}
     for n in nodes:
         tk = " ".join(tokens(n))
         lines["type"].append(f"type {n.context} {tk}")
         lines["size"].append(f"size {n.context} {tk}")
         lines["valid"].append(f"valid {n.context} {tk}")
         lines["script"].append(f"script {n.context} {table(n)} {tk}")
+        lines["str"].append(f"str {n.context} {tk}")
+        text = str(n)
+        if n.script_size > 1200:
+            # the model's `allTyped` re-types every subtree (cubic in the depth): deep chains are read back on the
+            # real side only (oracle `text`) and written by both sides (stream `str`)
+            ctx.count("parse.skipped", "deep")
+            continue
+        lines["parse"].append(f"parse {n.context} {hx(text.encode())}")
+        for _ in range(2):
+            lines["parse"].append(f"parse {n.context} {hx(mutate_text(rng, text).encode())}")
     typed = {f"{op} {n.context} " + " ".join(tokens(n)) for n in nodes if n.properties for op in ("type", "size", "valid")}
     for op, ls in lines.items():
         ctx.stream(op, ls, nontrivial=(lambda line, out: not out.startswith("err") and (line in typed or line.startswith("script"))))
     ctx.stream("pushnum", [f"pushnum {i}" for i in sorted({abs(v) % 2**31 for v in common.boundary_ints(rng)} |
                                                            {rng.randrange(2**31) for _ in range(ctx.n(300))} | set(range(0, 300)))])
+    shape_lines = []
+    for n in nodes[:ctx.n(400, 4000)]:
+        tk = tokens(n)
+        if len(tk) > 400:
+            continue
+        shape_lines.append(f"shape {n.context} " + " ".join(tk))
+        for _ in range(2):
+            shape_lines.append(f"shape {n.context} " + " ".join(ill_shaped(rng, tk, n.context)))
+    for c in CTXS:
+        kk = [hx(bytes.fromhex(k)[1:] if c == TAPSCRIPT else bytes.fromhex(k)) for k in keys]
+        for cnt in (1, 20, 21, 25):
+            name = "multi_a" if c == TAPSCRIPT else "multi"
+            shape_lines.append(f"shape {c} {name} 1 {cnt} " + " ".join(kk[i % len(kk)] for i in range(cnt)))
+    ctx.stream("shape", shape_lines, nontrivial=lambda line, out: out == "ok")
+    # satisfactions: real signatures, the real engine, every availability assignment of small expressions
+    spend_nodes = [n for n in nodes if n.is_valid_top_level and len(n.key_expressions) <= 6
+                   and n.script_size < 700 and all(SP.key_index(written_key(n, k).hex()) is not None
+                                                   for k in n.key_expressions)]
+    rng.shuffle(spend_nodes)
+    produced = 0
+    for n in spend_nodes[:ctx.n(150, 3000)]:
+        text = str(n)
+        for a in SP.all_avail(n, n.context, rng, limit=ctx.n(12, 40)):
+            w = {"expr": text, "context": n.context, "avail": a}
+            r = SP.spend_check(text, n.context, a)
+            produced += bool(r.get("produced"))
+            ctx.count("spend", ("produced" if r.get("produced") else "refused:" + str(r.get("refusal")))
+                      + ("/cond" if r.get("cond") else "/nocond") + ("/sane" if r.get("is_sane") else "/insane"))
+            ok, detail = SP._judge(r) if hasattr(SP, "_judge") else SP.oracle_spend(w)
+            ctx.oracle("spend", ok, detail, witness={"oracle": "spend", "witness": w}, nontrivial=bool(r.get("produced")))
+    ctx.note(f"spend oracle: {produced} satisfactions produced and run through the real engine (p2wsh and tapscript)")
     for n in nodes:
         w = {"context": n.context, "tokens": " ".join(tokens(n))}
         nt = bool(n.properties)
